@@ -135,7 +135,18 @@ def strategy(tier):
         'admin_until': st.one_of(st.none(), st.integers(1, 20)),
         'coro': st.booleans(),
         'sc': scenario.server_scenario_st(tier).map(strip)})
-    return st.one_of(gate, ro, tr, tr)
+    # the heartbeat of an application client (asyncio: the instrumented
+    # server reports the client to the admin namespace before each ping)
+    # while other connections come and go
+    hb = st.fixed_dictionaries({
+        'part': st.just('heartbeat'),
+        'admin': st.booleans(),
+        'mode': st.sampled_from(['development', 'development',
+                                 'production']),
+        'meanwhile': st.sampled_from(['new_namespace', 'last_leaves',
+                                      'none']),
+        'after_steps': st.integers(0, 6)})
+    return st.one_of(gate, ro, tr, tr, hb)
 
 
 class _SocketPatchGuard:
@@ -163,6 +174,8 @@ def check_case(case):
             return _gate(case)
         if case['part'] == 'readonly':
             return _readonly(case)
+        if case['part'] == 'heartbeat':
+            return _heartbeat(case)
         return _transparency(case)
 
 
@@ -244,6 +257,63 @@ def _app_server(aio, **kw):
         w.sio.on('a', lambda sid, *a: log.append(('a', sid, a)),
                  namespace=ns)
     return w, log
+
+
+def _heartbeat(case):
+    w, log = _app_server(True)
+    try:
+        w.sio.instrument(auth=False, mode=case['mode'])
+        labels = {'part': 'heartbeat', 'aio': True, 'mode': case['mode'],
+                  'admin': case['admin'], 'nontrivial': False}
+        if case['admin']:
+            ta = w.open()
+            if w.connect(ta, '/admin')[0] is None:
+                raise Violation('admin-refused-with-auth-disabled', '')
+        tx = w.open()
+        w.connect(tx, '/')
+        ty = w.open()
+        if case['meanwhile'] == 'last_leaves':
+            w.connect(ty, '/x')
+        w.h.settle()
+        w.recv_all()
+        loop = w.h.loop
+        P = w.h.eio_packet
+        sx = w.h.eio.sockets[w.t[tx]]
+        sy = w.h.eio.sockets[w.t[ty]]
+        w.h.drain(w.t[tx])
+        task = loop.spawn(sx._send_ping())
+        for _ in range(case['after_steps']):
+            loop.step()
+        other = None
+        if case['meanwhile'] == 'new_namespace':
+            other = loop.spawn(sy.receive(P.Packet(P.MESSAGE, '0/x,')))
+        elif case['meanwhile'] == 'last_leaves':
+            other = loop.spawn(sy.receive(P.Packet(P.MESSAGE, '1/x,')))
+        loop.run_until_idle()
+        for _ in range(3):
+            if task.done():
+                break
+            loop.advance()
+        pings = [t for t, d in w.h.drain(w.t[tx]) if t == P.PING]
+        if not task.done() or task.exception() is not None or \
+                len(pings) != 1:
+            raise Violation('heartbeat-lost',
+                            'the ping of an application client (admin '
+                            'connected: %s, meanwhile: %s after %d loop '
+                            'iterations) ended with %r and %d PING packets; '
+                            'without instrumentation it is sent'
+                            % (case['admin'], case['meanwhile'],
+                               case['after_steps'],
+                               task.exception() if task.done() else
+                               'no result', len(pings)))
+        if other is not None and (not other.done() or
+                                  other.exception() is not None):
+            raise Violation('heartbeat-neighbour-failed', repr(other))
+        labels['nontrivial'] = case['meanwhile'] != 'none'
+        labels['heartbeat_' + case['meanwhile']] = True
+        return labels
+    finally:
+        w.close()
 
 
 def _gate(case):
